@@ -23,7 +23,7 @@ const ruleNote = "Every evaluation is one complete exchange between the referenc
 
 func exhaustiveNote(r *mon.Run) string {
 	return fmt.Sprintf("all argument strings over the 5-symbol alphabet {\\ ; = a b} of length 1..%d (differential against the reference decoder); every wrong value of VER/CMD/RSV/ATYP/auth-VER and every single-method greeting; every two-segment cut and every truncation offset of the fixed exchanges; every username/password cut of the enumerated encoded lengths; all 256 reply codes",
-		r.Pick(6, 8))
+		r.Pick(7, 8))
 }
 
 var v4Edges = [][4]byte{{0, 0, 0, 0}, {255, 255, 255, 255}, {127, 0, 0, 1}, {1, 2, 3, 4}, {0, 0, 0, 1}, {1, 0, 0, 0}, {255, 0, 0, 0},
